@@ -67,6 +67,23 @@ impl ToVal for T12 {
 
 // ---------------------------------------------------------------- pure function tables
 
+/// A call counter inside a user closure; cloning the closure copies the current count (deep copy), so
+/// every subscription that gets its own clone of a pristine closure starts from zero.
+pub struct DeepCounter(pub std::sync::atomic::AtomicUsize);
+impl Clone for DeepCounter {
+    fn clone(&self) -> Self {
+        DeepCounter(std::sync::atomic::AtomicUsize::new(self.0.load(std::sync::atomic::Ordering::SeqCst)))
+    }
+}
+impl DeepCounter {
+    pub fn new() -> Self {
+        DeepCounter(std::sync::atomic::AtomicUsize::new(0))
+    }
+    pub fn tick(&self) -> i64 {
+        self.0.fetch_add(1, std::sync::atomic::Ordering::SeqCst) as i64
+    }
+}
+
 pub fn map_fn(id: u8, x: i64) -> i64 {
     match id % 5 {
         0 => x.wrapping_add(1),
@@ -360,6 +377,10 @@ impl<T: Send + Sync + 'static> Puppet<T> {
                         };
                         match mode {
                             Some(Reply::Sync) => me.act(inst, PAct::Emit),
+                            Some(Reply::SyncEnd) => {
+                                me.act(inst, PAct::Emit);
+                                me.act(inst, PAct::End);
+                            }
                             Some(Reply::Deferred) => {
                                 me.world.lock().pups[me.id as usize][inst].pending += 1;
                             }
@@ -836,6 +857,15 @@ impl Iterator for CountingIter {
         self.world.call(CallKind::IterNext, self.leaf as u16, vec![], r.map(Val::I));
         r
     }
+    /// exact for bounded iterators (like arrays, Vecs and ranges), open-ended otherwise
+    fn size_hint(&self) -> (usize, Option<usize>) {
+        if self.bounded {
+            let rem = self.n.saturating_sub(self.pos) as usize;
+            (rem, Some(rem))
+        } else {
+            (usize::MAX, None)
+        }
+    }
 }
 
 // ---------------------------------------------------------------- building the topology with the real crate
@@ -851,6 +881,8 @@ pub enum Root {
 pub struct Built {
     pub root: Root,
     pub pups: Vec<Option<Arc<dyn PupDriver>>>,
+    /// ForEachShared: the member sources of the (unbuilt) root Merge
+    pub members: Vec<Src<i64>>,
 }
 
 struct Builder<'a> {
@@ -912,8 +944,10 @@ impl<'a> Builder<'a> {
             Topo::Map(f, c) => {
                 let f = *f;
                 let src = self.build(c);
+                let calls = DeepCounter::new();
                 Arc::new(callbag::map(move |x: i64| {
-                    let r = map_fn(f, x);
+                    // ids 5 and 6 are stateful: the result depends on how often this clone was called
+                    let r = if f >= 5 { map_fn(f, x).wrapping_add(1000 * calls.tick()) } else { map_fn(f, x) };
                     w.call(CallKind::MapF, f as u16, vec![Val::I(x)], Some(Val::I(r)));
                     r
                 })(src))
@@ -921,8 +955,10 @@ impl<'a> Builder<'a> {
             Topo::Filter(p, c) => {
                 let p = *p;
                 let src = self.build(c);
+                let calls = DeepCounter::new();
                 Arc::new(callbag::filter(move |x: &i64| {
-                    let r = pred_fn(p, *x);
+                    // ids 5 and 6 are stateful: keep every other / every third call
+                    let r = if p >= 5 { calls.tick() % (p as i64 - 3) == 0 } else { pred_fn(p, *x) };
                     w.call(CallKind::FilterP, p as u16, vec![Val::I(*x)], Some(Val::I(r as i64)));
                     r
                 })(src))
@@ -930,9 +966,11 @@ impl<'a> Builder<'a> {
             Topo::Scan(r, seed, c) => {
                 let r = *r;
                 let src = self.build(c);
+                let calls = DeepCounter::new();
                 Arc::new(callbag::scan(
                     move |acc: i64, x: i64| {
-                        let v = red_fn(r, acc, x);
+                        // ids 4 and 5 are stateful
+                        let v = if r >= 4 { red_fn(r, acc, x).wrapping_add(7 * calls.tick()) } else { red_fn(r, acc, x) };
                         w.call(CallKind::ScanR, r as u16, vec![Val::I(acc), Val::I(x)], Some(Val::I(v)));
                         v
                     },
@@ -968,14 +1006,18 @@ impl<'a> Builder<'a> {
                 })
             }
             Topo::Combine(ts) => self.combine_packed(ts),
-            Topo::Flatten { outer, inners } => {
+            Topo::Flatten { outer, inners, order } => {
                 let inner_srcs: Vec<Src<i64>> = self.members(inners);
                 let id = *outer;
+                let order = order.clone();
                 let p = Puppet::<Src<i64>>::new(
                     id,
                     self.world,
                     self.sc.puppets[id as usize].clone(),
-                    Box::new(move |k| inner_srcs.get(k as usize).map(|s| (Arc::clone(s), Val::Src(k as u16)))),
+                    Box::new(move |k| {
+                        let idx = if order.is_empty() { Some(k as usize) } else { order.get(k as usize).map(|i| *i as usize) };
+                        idx.and_then(|i| inner_srcs.get(i).map(|s| (Arc::clone(s), Val::Src(i as u16))))
+                    }),
                 );
                 let src = p.source();
                 self.pups[id as usize] = Some(Arc::new(PupHandle(p)));
@@ -1018,6 +1060,14 @@ impl<'a> Builder<'a> {
 
 pub fn build(world: &Arc<World>, sc: &Scenario) -> Built {
     let mut b = Builder { world, sc, pups: (0..sc.puppets.len()).map(|_| None).collect() };
+    if sc.sink_kind == SinkKind::ForEachShared {
+        let members = match &sc.topo {
+            Topo::Merge(ts) => b.members(ts),
+            other => vec![b.build(other)],
+        };
+        let root = Root::I(Arc::clone(&members[0]));
+        return Built { root, pups: b.pups, members };
+    }
     let root = match (&sc.topo, sc.root_tuple) {
         (Topo::Combine(ts), true) => {
             let m = b.members(ts);
@@ -1043,7 +1093,7 @@ pub fn build(world: &Arc<World>, sc: &Scenario) -> Built {
         }
         (t, _) => Root::I(b.build(t)),
     };
-    Built { root, pups: b.pups }
+    Built { root, pups: b.pups, members: vec![] }
 }
 
 enum AnyProbe {
@@ -1175,6 +1225,20 @@ pub fn run(sc: &Scenario) -> History {
     if sc.attach_first {
         ok = match sc.sink_kind {
             SinkKind::Probe => guarded(&world, usize::MAX, 0, &|| attach(0)),
+            SinkKind::ForEachShared => {
+                // one sink factory value, applied to each member source in turn
+                let w = Arc::clone(&world);
+                let fe: Box<dyn Fn(Src<i64>)> = callbag::for_each(move |x: i64| {
+                    w.call(CallKind::ForEachF, 0, vec![Val::I(x)], None);
+                });
+                let mut all_ok = true;
+                for (k, m) in built.members.iter().enumerate() {
+                    if sc.fe_only.map_or(true, |o| o as usize == k) {
+                        all_ok &= guarded(&world, usize::MAX, k as u8, &|| fe(tap(&world, 250 + k as u8, Arc::clone(m))));
+                    }
+                }
+                all_ok
+            }
             SinkKind::ForEach => guarded(&world, usize::MAX, 0, &|| {
                 let w = Arc::clone(&world);
                 let Root::I(src) = &built.root else { unreachable!() };
@@ -1222,7 +1286,7 @@ pub fn run(sc: &Scenario) -> History {
                 }
                 Step::Sink { s, act } => {
                     let s = s as usize;
-                    if s >= probes.len() || sc.sink_kind == SinkKind::ForEach {
+                    if s >= probes.len() || sc.sink_kind != SinkKind::Probe {
                         world.lock().skipped_by_guard += 1;
                         continue;
                     }
